@@ -340,7 +340,7 @@ var finalKinds = []string{
 	"tag-new", "tag-move", "tag-raw", "tag-missing",
 	"untag", "untag-missing",
 	"delete-tagged", "delete-digest-only", "delete-raw", "delete-missing",
-	"saveindex",
+	"saveindex", "reopen",
 }
 
 // realize extends the history so that the situation exists and returns the final op.
@@ -420,6 +420,8 @@ func realize(r *common.Rand, kind string, s *sim, hist *[]ck.Op) ck.Op {
 		id := common.Pick(r, allIDs)
 		ensure(id, false)
 		return ck.Op{Kind: "delete", Blob: id}
+	case "reopen":
+		return ck.Op{Kind: "reopen"}
 	}
 	return ck.Op{Kind: "saveindex"}
 }
@@ -1103,7 +1105,8 @@ func main() {
 			kind := finalKinds[ki%len(finalKinds)]
 			ki++
 			histLen := r.Intn(run.Scale(7, 14))
-			big := run.Thorough() && h%5 == 4 && (kind == "push-raw-multi" || kind == "pushbad")
+			big := (run.Thorough() && h%5 == 4 && (kind == "push-raw-multi" || kind == "pushbad")) ||
+				(!run.Thorough() && h == 1 && kind == "push-raw-multi") // > 1 MiB: many write units
 			crashes := 0
 			if h%3 == 2 {
 				crashes = 1 + r.Intn(2) // the directory was left behind by one or two killed processes
